@@ -54,6 +54,21 @@ func main() {
 	replay := fs.String("replay", "", "replay file: re-run the rule it names")
 	_ = fs.Parse(os.Args[2:])
 
+	if id == "describe" {
+		type d struct {
+			ID, Level, Explain string
+			Trusted, Assumes   []string
+			Rules              int
+		}
+		var out []d
+		for _, p := range registry {
+			out = append(out, d{p.ID, p.Level, p.Explain, p.Trusted, p.Assumes, len(p.Rules)})
+		}
+		sort.Slice(out, func(i, j int) bool { return out[i].ID < out[j].ID })
+		b, _ := json.MarshalIndent(out, "", " ")
+		fmt.Println(string(b))
+		return
+	}
 	if id == "list" {
 		var ids []string
 		for k := range registry {
